@@ -699,6 +699,21 @@ func (env *SpecEnv) evalCall(c *ECall) (Val, types.Type) {
 			sfail("keys() needs a map")
 		}
 		return SetV{T: st.mapDom(m, asSc(v).T, env.snap()), K: vc.leaves(m.Key())[0].Sort}, &setType{K: m.Key()}
+	case "samemap":
+		// samemap(m): the map m has the same keys and values as in the old state
+		mv, t := env.eval(c.Args[0])
+		m, ok := t.Underlying().(*types.Map)
+		if !ok {
+			sfail("samemap() needs a map")
+		}
+		ref := asSc(mv).T
+		dn, ds := vc.mapDomArr(m)
+		cs := []string{sEq(sSel(st.arrayIn(env.snap(), dn, ds), ref), sSel(st.arrayIn(env.old, dn, ds), ref))}
+		for _, l := range vc.leaves(m.Elem()) {
+			vn, vs := vc.mapValArr(m, l)
+			cs = append(cs, sEq(sSel(st.arrayIn(env.snap(), vn, vs), ref), sSel(st.arrayIn(env.old, vn, vs), ref)))
+		}
+		return boolv(sAnd(cs...)), tBool
 	case "deref":
 		v, t := env.eval(c.Args[0])
 		el, ok := deref(t)
